@@ -1,5 +1,8 @@
 import ZV.Model.C07
 import ZV.Proofs.C07
+import ZV.Proofs.C07Fuel
+import ZV.Proofs.C07Eku
+import ZV.Proofs.C07Complete
 import ZV.Props.C09
 /-!
   C07 — chain verification returns only valid chains and partitions them by date.
@@ -20,7 +23,20 @@ import ZV.Props.C09
   * `filterByDate_partition`  current / expired / never are exactly the chains whose common window
                               (max NotBefore, min NotAfter) strictly contains `now` / is non-empty but does
                               not / is empty (`lowerBound_spec`, `upperBound_spec`);
-  * `nil_error_implies`       nil error ⇒ at least one current chain ∧ the DNS name matched when requested.
+  * `nil_error_implies`       nil error ⇒ at least one current chain ∧ the DNS name matched when requested;
+  * `buildChains_never_out_of_fuel`, `buildChains_fuel_independent`, `verify_never_out_of_fuel`
+                              the fuel of the model's recursion is never exhausted and its amount is
+                              irrelevant: the depth bound is the one `isValid` enforces
+                              (`len(currentChain) > maxIntermediateCount` fails), as in the Go code;
+  * `checkChainForKeyUsage_spec`, `checkChainForKeyUsage_spec_plain`, `verify_usage_spec`
+                              the cross-out loop with its `-1` sentinel computes "some requested usage is
+                              supported by every certificate of the chain" (`UsageSpec`);
+  * `isValid_leaf_nil`, `verify_total`, `candidateChains_err_iff`, `buildChains_no_parents`,
+    `verify_error_kind`       which error `Verify` returns, case by case;
+  * `findVerifiedParents_spec`, `isValid_root_iff`, `direct_root_chain_found`
+                              the candidate rule (AKID→SKID else issuer→subject) declaratively, and the part of
+                              completeness the memoisation cannot break: every verified, admissible root
+                              parent of the verified certificate yields the chain [c, root] and a nil builder error.
 -/
 namespace ZV.C07
 
@@ -434,5 +450,413 @@ example :
 
 example : ValidChain exEnv exLeaf [exLeaf, exRoot] :=
   ValidChain.close (cur := [exLeaf]) Prefix.leaf (by simp [exEnv]) (by decide) (by simp [PathOK, exRoot, maxIntermediateCount]) (by decide)
+
+/-! ### the recursion bound (gap 1) -/
+
+/-- The initial call of `Verify` (`currentChain = [c]`, fuel 13) never reports `outOfFuel`, whatever
+    the pools, the signature relation and the cache: every recursive call lengthens `currentChain`
+    by one, and `isValid` refuses to recurse once `len(currentChain) > maxIntermediateCount`.
+    (General form for any call site: `buildChains_ne_outOfFuel` under `FuelOK`.) -/
+theorem fuelOK0 (c : Cert) : FuelOK fuel0 ([c] : Chain).length := by
+  unfold FuelOK fuel0 maxIntermediateCount; simp
+
+theorem buildChains_never_out_of_fuel (env : Env) (cache : Cache) (c : Cert) :
+    (buildChains fuel0 env cache c [c]).2.1 ≠ some .outOfFuel :=
+  buildChains_ne_outOfFuel fuel0 env cache c [c] (fuelOK0 c)
+
+/-- more precisely: the builder's error is nil or one of the four kinds of the Go code -/
+theorem buildChains_error_kinds (env : Env) (cache : Cache) (c : Cert) :
+    BuilderErr (buildChains fuel0 env cache c [c]).2.1 :=
+  buildChains_err fuel0 env cache c [c] (fuelOK0 c)
+
+/-- The amount of fuel is irrelevant: any fuel ≥ 11 (= maxIntermediateCount + 1 nested calls) gives
+    the same chains, error and cache as the 13 used by the model. -/
+theorem buildChains_fuel_independent (fuel : Nat) (hf : maxIntermediateCount + 1 ≤ fuel)
+    (env : Env) (cache : Cache) (c : Cert) :
+    buildChains fuel env cache c [c] = buildChains fuel0 env cache c [c] :=
+  buildChains_fuel_irrelevant fuel fuel0 env cache c [c]
+    (by unfold FuelOK maxIntermediateCount at *; simp only [List.length_cons, List.length_nil]; omega)
+    (fuelOK0 c)
+
+example : maxIntermediateCount + 1 ≤ 11 := by decide
+
+/-- the fuel bound 11 is tight in the sense of the invariant: a call on a chain of 11 certificates
+    needs (and uses) exactly one unit, because no intermediate passes `isValid` any more. -/
+theorem isValid_stops (x : Cert) (t : CertType) (cur : Chain) (h : maxIntermediateCount < cur.length) :
+    isValid x t cur ≠ none := by
+  intro hn
+  have := isValid_none_len x t cur hn
+  omega
+
+example : maxIntermediateCount < (List.replicate 11 exRoot).length := by decide
+
+theorem candidateChains_error_kinds (env : Env) (c : Cert) : BuilderErr (candidateChains env c).2 := by
+  unfold candidateChains
+  split
+  · exact Or.inl rfl
+  · exact buildChains_error_kinds env _ c
+
+/-- `isValid(CertificateTypeLeaf, nil)`, the first check of `Verify`, can never fail. -/
+theorem isValid_leaf_nil (c : Cert) : isValid c .leaf [] = none := by
+  unfold isValid maxIntermediateCount
+  simp only [List.length_nil]
+  rw [if_neg (by simp), if_neg (by omega), if_neg (by omega)]
+
+/-- `Verify` (model) neither panics nor fails internally. -/
+theorem verify_total (env : Env) (c : Cert) (hostCert : C09.Cert) (opts : Opts) :
+    ∃ o, verify env c hostCert opts = .ok o := by
+  unfold verify
+  split
+  · exact ⟨_, rfl⟩
+  · split
+    · exact ⟨_, rfl⟩
+    · simp only
+      split
+      · exact ⟨_, rfl⟩
+      · obtain ⟨d, hd⟩ := filterByDate_no_panic opts.now
+          (filterUsage (candidateChains env c).1 (usagesOf opts)) { current := [], expired := [], never := [] }
+        rw [hd]
+        simp only
+        unfold finish
+        split
+        · exact ⟨_, rfl⟩
+        · split
+          · obtain ⟨v, hv⟩ := C09.verifyHostname_total hostCert opts.dnsName
+            rw [hv]
+            cases v <;> exact ⟨_, rfl⟩
+          · exact ⟨_, rfl⟩
+
+/-- `Verify` never returns the model-only error `outOfFuel`. -/
+theorem verify_never_out_of_fuel (env : Env) (c : Cert) (hostCert : C09.Cert) (opts : Opts) (o : Out)
+    (h : verify env c hostCert opts = .ok o) : o.err ≠ some .outOfFuel := by
+  unfold verify at h
+  rw [isValid_leaf_nil] at h
+  simp only at h
+  split at h
+  · rename_i e he
+    cases h
+    have := builderErr_ne_outOfFuel (candidateChains_error_kinds env c)
+    rw [he] at this
+    simpa [errOut] using this
+  · split at h
+    · cases h; simp [errOut]
+    · split at h
+      · cases h
+      · cases h
+      · rename_i d hd
+        unfold finish at h
+        split at h
+        · cases h
+          simp only
+          split
+          · simp
+          · split <;> simp
+        · split at h
+          · split at h <;> first | (cases h; simp) | cases h
+          · cases h; simp
+
+/-! ### the extended-key-usage filter (gap 2) -/
+
+/-- `checkChainForKeyUsage` computes the declarative `UsageSpec`: the chain is non-empty and (the
+    request list is empty, or) some requested slot — the sentinel value −1 trivially — is supported by
+    every certificate of the chain, where a certificate supports a usage when it has no (known or
+    unknown) EKU at all, lists `ExtKeyUsageAny`, lists the usage, or lists an SGC usage and the
+    request is ServerAuth. -/
+theorem checkChainForKeyUsage_spec (chain : Chain) (usages : List Int) :
+    checkChainForKeyUsage chain usages = true ↔ UsageSpec chain usages :=
+  checkChainForKeyUsage_iff_spec chain usages
+
+/-- For request lists as `Verify` passes them in practice (non-empty, no −1 entry) the two corner
+    cases disappear: acceptable ⇔ some requested usage is supported by every certificate. -/
+theorem checkChainForKeyUsage_spec_plain (chain : Chain) (usages : List Int)
+    (hne : usages ≠ []) (hs : invalidUsage ∉ usages) :
+    checkChainForKeyUsage chain usages = true ↔
+      (chain ≠ [] ∧ ∃ u ∈ usages, ∀ cert ∈ chain, CertAllows cert u) := by
+  rw [checkChainForKeyUsage_spec]
+  unfold UsageSpec
+  constructor
+  · rintro ⟨h1, h | ⟨u, hu, h | h⟩⟩
+    · exact absurd h hne
+    · exact absurd (h ▸ hu) hs
+    · exact ⟨h1, u, hu, h⟩
+  · rintro ⟨h1, u, hu, h⟩
+    exact ⟨h1, Or.inr ⟨u, hu, Or.inr h⟩⟩
+
+example : ([ekuServerAuth] : List Int) ≠ [] ∧ invalidUsage ∉ ([ekuServerAuth] : List Int) := by decide
+
+theorem usagesOf_ne_nil (opts : Opts) : usagesOf opts ≠ [] := by
+  unfold usagesOf
+  split
+  · simp
+  · rename_i h; intro e; exact h (by simp [e])
+
+/-- `verify_sound` with the filter spelt out: every returned chain satisfies the request — `Any`
+    was requested, or a requested usage (or the −1 sentinel slot) is supported by every certificate. -/
+theorem verify_usage_spec (env : Env) (c : Cert) (hostCert : C09.Cert) (opts : Opts) (o : Out)
+    (h : verify env c hostCert opts = .ok o) :
+    ∀ ch ∈ o.current ++ o.expired ++ o.never,
+      ekuAny ∈ usagesOf opts ∨ ∃ u ∈ usagesOf opts, u = invalidUsage ∨ ∀ cert ∈ ch, CertAllows cert u := by
+  intro ch hch
+  rcases (verify_sound env c hostCert opts o h ch hch).2 with h1 | h1
+  · obtain ⟨x, hx, e⟩ := List.any_eq_true.mp h1
+    simp only [decide_eq_true_eq] at e
+    exact Or.inl (e ▸ hx)
+  · rcases ((checkChainForKeyUsage_spec ch _).mp h1).2 with h2 | h2
+    · exact absurd h2 (usagesOf_ne_nil opts)
+    · exact Or.inr h2
+
+/-! ### which error (gap 3) -/
+
+/-- the candidate builder reports a nil error exactly when it found a chain -/
+theorem candidateChains_err_iff (env : Env) (c : Cert) :
+    (candidateChains env c).2 = none ↔ (candidateChains env c).1 ≠ [] := by
+  unfold candidateChains
+  split
+  · simp
+  · exact buildChains_err_none_iff 12 env _ c [c]
+
+/-- A call of `buildChains` for a certificate without any verified parent in either pool (and which
+    is not the trusted-leaf case) finds nothing and reports `IsSelfSigned` for a self-signed
+    certificate, `UnknownAuthority` otherwise. -/
+theorem buildChains_no_parents (fuel : Nat) (env : Env) (cache : Cache) (c : Cert) (cur : Chain)
+    (h0 : ¬ (cur.length = 1 ∧ containsFp env.roots c = true))
+    (hr : findVerifiedParents env env.roots c = []) (hi : findVerifiedParents env env.inters c = []) :
+    buildChains (fuel + 1) env cache c cur =
+      ([], some (if c.selfSigned then .isSelfSigned else .unknownAuthority), cache) := by
+  simp only [buildChains, hr, hi, rootLoop, interLoop, h0, if_false, List.length_nil, true_and,
+    Nat.lt_irrefl]
+  cases c.selfSigned <;> simp
+
+/-- `verify` as a cascade over the builder's result, the usage filter and the date classes. -/
+theorem verify_eq (env : Env) (c : Cert) (hostCert : C09.Cert) (opts : Opts) :
+    verify env c hostCert opts =
+      match (candidateChains env c).2 with
+      | some e => .ok (errOut e)
+      | none =>
+        if filterUsage (candidateChains env c).1 (usagesOf opts) = [] then .ok (errOut .incompatibleUsage)
+        else finish
+          { current := (filterUsage (candidateChains env c).1 (usagesOf opts)).filter (fun ch => classOf opts.now ch = some 0)
+            expired := (filterUsage (candidateChains env c).1 (usagesOf opts)).filter (fun ch => classOf opts.now ch = some 1)
+            never := (filterUsage (candidateChains env c).1 (usagesOf opts)).filter (fun ch => classOf opts.now ch = some 2) }
+          hostCert opts := by
+  unfold verify
+  rw [isValid_leaf_nil]
+  simp only
+  cases (candidateChains env c).2 with
+  | some e => rfl
+  | none => simp only [filterByDate_partition, List.nil_append, List.length_eq_zero_iff]
+
+/-- what `finish` (the tail of `Verify`) returns, by cases on the date classes -/
+theorem finish_spec (d : Dated) (hostCert : C09.Cert) (opts : Opts) (o : Out) (h : finish d hostCert opts = .ok o) :
+    (d.current = [] → d.expired ≠ [] → o.err = some .expired) ∧
+    (d.current = [] → d.expired = [] → d.never ≠ [] → o.err = some .neverValid) ∧
+    (d.current = [] → d.expired = [] → d.never = [] → o.err = none) ∧
+    (d.current ≠ [] →
+      (o.err = none ∧ (opts.dnsName ≠ [] → C09.HostSpec hostCert opts.dnsName)) ∨
+      (o.err = some .hostname ∧ opts.dnsName ≠ [] ∧ ¬ C09.HostSpec hostCert opts.dnsName)) := by
+  unfold finish at h
+  split at h
+  · rename_i hcur
+    have hc : d.current = [] := List.length_eq_zero_iff.mp hcur
+    cases h
+    refine ⟨?_, ?_, ?_, fun hne => absurd hc hne⟩
+    · intro _ he
+      have : d.expired.length > 0 := List.length_pos_iff.mpr he
+      simp [this]
+    · intro _ he hn
+      have : d.never.length > 0 := List.length_pos_iff.mpr hn
+      simp [he, this]
+    · intro _ he hn
+      simp [he, hn]
+  · rename_i hcur
+    have hcur' : d.current ≠ [] := fun e => hcur (by simp [e])
+    refine ⟨fun e => absurd e hcur', fun e => absurd e hcur', fun e => absurd e hcur', fun _ => ?_⟩
+    split at h
+    · rename_i hl
+      have hdns : opts.dnsName ≠ [] := fun e => by simp [e] at hl
+      split at h
+      · rename_i hacc
+        cases h
+        exact Or.inl ⟨rfl, fun _ => (C09.verifyHostname_iff _ _).mp hacc⟩
+      · rename_i r hrej
+        cases h
+        refine Or.inr ⟨rfl, hdns, fun hs => ?_⟩
+        have := (C09.verifyHostname_iff _ _).mpr hs
+        rw [hrej] at this
+        cases this
+      · cases h
+      · cases h
+    · rename_i hl
+      cases h
+      refine Or.inl ⟨rfl, fun hdns => ?_⟩
+      exfalso; apply hl
+      cases hd' : opts.dnsName with
+      | nil => exact absurd hd' hdns
+      | cons _ _ => simp
+
+/-- `verify_error_kind`: the error returned by `Verify`, case by case.
+    * no candidate chain: the builder's error — one of `IsSelfSigned`, `NotAuthorizedToSign`,
+      `TooManyIntermediates`, `UnknownAuthority` (never nil) — and no chains;
+    * candidates, but none passes the key-usage filter: `IncompatibleUsage`, no chains;
+    * otherwise the three lists are the date classes of the filtered candidates (`classOf`), and
+      no current chain, some expired chain: `Expired`;
+      no current and no expired chain: (then a never-valid chain exists and) `NeverValid`;
+      a current chain: nil, unless a DNS name was requested and does not satisfy `C09.HostSpec`,
+      in which case the error is a `HostnameError` (the chains are still returned). -/
+theorem verify_error_kind (env : Env) (c : Cert) (hostCert : C09.Cert) (opts : Opts) (o : Out)
+    (h : verify env c hostCert opts = .ok o) :
+    ((candidateChains env c).1 = [] →
+      o.err = (candidateChains env c).2 ∧
+      (o.err = some .isSelfSigned ∨ o.err = some .notAuthorizedToSign ∨ o.err = some .tooManyIntermediates ∨
+        o.err = some .unknownAuthority) ∧
+      o.current = [] ∧ o.expired = [] ∧ o.never = []) ∧
+    ((candidateChains env c).1 ≠ [] → filterUsage (candidateChains env c).1 (usagesOf opts) = [] →
+      o.err = some .incompatibleUsage ∧ o.current = [] ∧ o.expired = [] ∧ o.never = []) ∧
+    (filterUsage (candidateChains env c).1 (usagesOf opts) ≠ [] →
+      o.current = (filterUsage (candidateChains env c).1 (usagesOf opts)).filter (fun ch => classOf opts.now ch = some 0) ∧
+      o.expired = (filterUsage (candidateChains env c).1 (usagesOf opts)).filter (fun ch => classOf opts.now ch = some 1) ∧
+      o.never = (filterUsage (candidateChains env c).1 (usagesOf opts)).filter (fun ch => classOf opts.now ch = some 2) ∧
+      (o.current = [] → o.expired ≠ [] → o.err = some .expired) ∧
+      (o.current = [] → o.expired = [] → o.never ≠ [] ∧ o.err = some .neverValid) ∧
+      (o.current ≠ [] →
+        (o.err = none ∧ (opts.dnsName ≠ [] → C09.HostSpec hostCert opts.dnsName)) ∨
+        (o.err = some .hostname ∧ opts.dnsName ≠ [] ∧ ¬ C09.HostSpec hostCert opts.dnsName))) := by
+  have hiff := candidateChains_err_iff env c
+  have hkinds := candidateChains_error_kinds env c
+  have hsub : filterUsage (candidateChains env c).1 (usagesOf opts) ≠ [] → (candidateChains env c).1 ≠ [] := by
+    intro hne he
+    apply hne
+    unfold filterUsage
+    rw [he]
+    split <;> rfl
+  rw [verify_eq] at h
+  cases he : (candidateChains env c).2 with
+  | some e =>
+    rw [he] at h hkinds
+    simp only at h
+    cases h
+    have hnil : (candidateChains env c).1 = [] := by
+      apply Classical.byContradiction
+      intro hne
+      rw [hiff.mpr hne] at he
+      cases he
+    refine ⟨fun _ => ⟨rfl, ?_, rfl, rfl, rfl⟩, fun hne => absurd hnil hne, fun hne => absurd hnil (hsub hne)⟩
+    simp only [errOut]
+    rcases hkinds with h | h | h | h | h
+    · cases h
+    · exact Or.inl h
+    · exact Or.inr (Or.inl h)
+    · exact Or.inr (Or.inr (Or.inl h))
+    · exact Or.inr (Or.inr (Or.inr h))
+  | none =>
+    rw [he] at h
+    simp only at h
+    have hne : (candidateChains env c).1 ≠ [] := hiff.mp he
+    refine ⟨fun e => absurd e hne, ?_, ?_⟩
+    · intro _ hu
+      rw [if_pos hu] at h
+      cases h
+      exact ⟨rfl, rfl, rfl, rfl⟩
+    · intro hu
+      rw [if_neg hu] at h
+      obtain ⟨e1, e2, e3⟩ := finish_lists _ hostCert opts o h
+      obtain ⟨f1, f2, f3, f4⟩ := finish_spec _ hostCert opts o h
+      simp only at e1 e2 e3 f1 f2 f3 f4
+      rw [← e1, ← e2] at f1
+      rw [← e1, ← e2, ← e3] at f2
+      rw [← e1] at f4
+      refine ⟨e1, e2, e3, f1, ?_, f4⟩
+      intro hc hx
+      -- the three classes cannot all be empty: every filtered candidate is a non-empty chain
+      have hnever : o.never ≠ [] := by
+        intro hn
+        have hcount := filterByDate_count opts.now (filterUsage (candidateChains env c).1 (usagesOf opts))
+          { current := [], expired := [], never := [] } _ (filterByDate_partition _ _ _)
+        simp only [List.nil_append, List.length_nil, Nat.add_zero, Nat.zero_add] at hcount
+        rw [← e1, ← e2, ← e3, hc, hx, hn] at hcount
+        have hall : (List.filter (fun ch => !ch.isEmpty) (filterUsage (candidateChains env c).1 (usagesOf opts))).length
+            = (filterUsage (candidateChains env c).1 (usagesOf opts)).length := by
+          rw [List.filter_eq_self.mpr]
+          intro ch hch
+          have := validChain_ne_nil (candidates_valid env c ch (filterUsage_mem _ _ _ hch).1)
+          cases ch with
+          | nil => exact absurd rfl this
+          | cons _ _ => rfl
+        have hpos : 0 < (filterUsage (candidateChains env c).1 (usagesOf opts)).length := List.length_pos_iff.mpr hu
+        simp only [List.length_nil] at hcount
+        omega
+      exact ⟨hnever, f2 hc hx hnever⟩
+
+
+/-! ### completeness at depth one -/
+
+/-- the candidate parents, declaratively: pool entries passing `CheckSignatureFrom`, selected by
+    key id when the child has an AuthorityKeyId matched by some pool entry, by name otherwise. -/
+theorem findVerifiedParents_spec (env : Env) (pool : List Cert) (c : Cert) (i : Nat) (x : Cert) :
+    (i, x) ∈ findVerifiedParents env pool c ↔
+      pool[i]? = some x ∧ checkSignatureFrom env c x = true ∧
+      (if c.akid ≠ 0 ∧ ∃ y ∈ pool, y.skid = c.akid then x.skid = c.akid else x.subject = c.issuer) :=
+  fvp_mem_iff env pool c i x
+
+/-- for a root (or leaf) `isValid` is exactly the path-length clause plus the global bound -/
+theorem isValid_root_iff (x : Cert) (cur : Chain) : isValid x .root cur = none ↔ PathOK x cur.length := by
+  constructor
+  · exact isValid_none_pathOK x .root cur
+  · rintro ⟨h1, h2⟩
+    unfold isValid
+    rw [if_neg (by simp), if_neg h1, if_neg (by omega)]
+
+/-- Depth-one completeness (not affected by the memoisation, true for every cache): if the verified
+    certificate is not itself a root, every root that `findVerifiedParents` selects, that respects
+    its path-length limit and is not the certificate itself gives the chain `[c, root]`, and the
+    builder's error is nil. -/
+theorem direct_root_chain_found (env : Env) (c : Cert) (n : Nat) (root : Cert)
+    (hnr : containsFp env.roots c = false)
+    (hm : (n, root) ∈ findVerifiedParents env env.roots c)
+    (hp : PathOK root 1) (hid : c.id ≠ root.id) :
+    [c, root] ∈ (candidateChains env c).1 ∧ (candidateChains env c).2 = none := by
+  have hmem : [c, root] ∈ (candidateChains env c).1 := by
+    unfold candidateChains
+    rw [if_neg (by simp [hnr])]
+    exact buildChains_root_complete 12 env _ c [c] n root hm ((isValid_root_iff root [c]).mpr hp)
+      (by simp [certificateInChain, hid])
+  exact ⟨hmem, (candidateChains_err_iff env c).mpr (fun e => by rw [e] at hmem; cases hmem)⟩
+
+
+/-! ### non-vacuity of the new statements -/
+
+-- a leaf whose only EKU is ClientAuth (2): ServerAuth is crossed out, the chain is refused …
+def exClientLeaf : Cert := { exLeaf with eku := [2] }
+
+example : checkChainForKeyUsage [exClientLeaf, exRoot] [ekuServerAuth] = false := by decide
+example : ¬ UsageSpec [exClientLeaf, exRoot] [ekuServerAuth] :=
+  fun h => absurd ((checkChainForKeyUsage_spec _ _).mpr h) (by decide)
+-- … accepted for ClientAuth, for an SGC leaf under a ServerAuth request …
+example : UsageSpec [exClientLeaf, exRoot] [ekuServerAuth, 2] := (checkChainForKeyUsage_spec _ _).mp (by decide)
+example : UsageSpec [{ exLeaf with eku := [ekuMicrosoftSGC] }, exRoot] [ekuServerAuth] :=
+  (checkChainForKeyUsage_spec _ _).mp (by decide)
+-- … and (corner case of the in-band sentinel) for a requested usage −1, whatever the certificates say
+example : checkChainForKeyUsage [exClientLeaf, exRoot] [invalidUsage] = true := by decide
+example : checkChainForKeyUsage [exClientLeaf, exRoot] [] = true := by decide
+
+-- error kinds: unknown authority (no parent), self-signed, incompatible usage, expired, never valid, hostname
+def exHost : C09.Cert := { extOids := [], dnsNames := [], ipAddresses := [], commonName := [] }
+
+example : (verify { exEnv with roots := [] } exLeaf exHost { now := 20, keyUsages := [], dnsName := [] }).map (·.err)
+    = .ok (some .unknownAuthority) := by decide
+example : (verify { exEnv with roots := [] } exRoot exHost { now := 20, keyUsages := [], dnsName := [] }).map (·.err)
+    = .ok (some .isSelfSigned) := by decide
+example : (verify exEnv exClientLeaf exHost { now := 20, keyUsages := [], dnsName := [] }).map (·.err)
+    = .ok (some .incompatibleUsage) := by decide
+example : (verify exEnv exLeaf exHost { now := 60, keyUsages := [], dnsName := [] }).map (·.err)
+    = .ok (some .expired) := by decide
+example : (verify exEnv { exLeaf with notBefore := 200, notAfter := 300 } exHost
+    { now := 60, keyUsages := [], dnsName := [] }).map (·.err) = .ok (some .neverValid) := by decide
+example : findVerifiedParents { exEnv with roots := [] } [] exLeaf = [] ∧
+    ¬ (([exLeaf] : Chain).length = 1 ∧ containsFp ([] : List Cert) exLeaf = true) := by decide
+
+example : containsFp exEnv.roots exLeaf = false ∧ (0, exRoot) ∈ findVerifiedParents exEnv exEnv.roots exLeaf ∧
+    exLeaf.id ≠ exRoot.id := by decide
+example : PathOK exRoot 1 := by simp [PathOK, exRoot, maxIntermediateCount]
 
 end ZV.C07
